@@ -652,7 +652,7 @@ class _Merger(object):
                 self.posargs.append(existing)
                 _add_sources(self.src, existing.name, src)
                 _exclude_from_seq(self.varargs_src, o_varargs)
-            elif existing.default == existing.empty:
+            elif existing.default is existing.empty:
                 raise ValueError('Unmatched positional parameter: {0}'
                                  .format(existing))
         else:
@@ -688,7 +688,7 @@ class _Merger(object):
             self.pokargs[:] = []
             self.posargs.append(existing.replace(kind=existing.POSITIONAL_ONLY))
             _add_sources(self.src, existing.name, src)
-        elif existing.default == existing.empty:
+        elif existing.default is existing.empty:
             raise ValueError('Unmatched regular parameter: {0}'
                              .format(existing))
 
@@ -701,7 +701,7 @@ class _Merger(object):
             non_defaulted = [
                 arg
                 for arg in unmatched_kwoargs.values()
-                if arg.default == arg.empty
+                if arg.default is arg.empty
                 ]
             if non_defaulted:
                 raise ValueError(
@@ -843,7 +843,7 @@ def _embed(outer, inner, use_varargs=True, use_varkwargs=True, depth=1):
         e_posargs.extend(i_posargs)
     else:
         _check_no_dupes(names, o_pokargs)
-        if i_pokargs and i_pokargs[0].default == i_pokargs[0].empty:
+        if i_pokargs and i_pokargs[0].default is i_pokargs[0].empty:
             e_posargs = list(_clear_defaults(e_posargs))
             e_pokargs.extend(_clear_defaults(o_pokargs))
         else:
